@@ -116,6 +116,76 @@ def pool_case(p):
     return bad, rec["beta"] > beta_prev, nlim
 
 
+def sequence_case(seed):
+    """Several consecutive iterations through ONE Reweighter instance on a growing synthetic history (state that
+    the reweighter carries from iteration to iteration is part of what is judged).  Directed variant: a batch that
+    contains a newly found narrow spike arrives after the pool had already been admissible up to beta=1."""
+    from tempest.state_manager import StateManager
+    from tempest.steps.reweight import Reweighter
+    from tempest.config import ESS_TOLERANCE, BETA_TOLERANCE
+    rng = np.random.default_rng(seed)
+    d = 2
+    N = int(rng.choice([16, 32]))
+    er = float(rng.choice([1.0, 2.0]))
+    vol = None if rng.random() < 0.35 else float(rng.choice([0.05, 0.2, 0.5]))
+    directed = rng.random() < 0.6
+    scale = 10 ** rng.uniform(-1.5, 0.5)
+    sm = StateManager(d)
+    rw = Reweighter(sm, None, n_particles=N, ess_ratio=er, volume_variation=vol, ESS_TOLERANCE=ESS_TOLERANCE, BETA_TOLERANCE=BETA_TOLERANCE)
+    sm.update_current(dict(iter=0, beta=0.0, logz=0.0, calls=0))
+    limits = []
+    bad = []
+    stats = dict(steps=0, advanced=0, limit_one_then_less=0)
+    saw_one = False
+    T = int(rng.integers(5, 10))
+    spike_at = int(rng.integers(3, T)) if directed else None
+    with attach.Hooks() as hk:
+        hk.wrap(Reweighter, "_find_beta_upper_limit", after=lambda ctx, r, *a, **k: limits.append(float(r)))
+        for t in range(T):
+            H = ([np.asarray(l) for l in sm._history["logl"]], [float(b) for b in sm._history["beta"]], [float(z) for z in sm._history["logz"]])
+            beta_prev = float(sm.get_current("beta"))
+            limits.clear()
+            try:
+                w = rw.run()
+            except Exception:
+                bad.append(("exception", fmt_exc()[-400:]))
+                break
+            rec = dict(beta=float(sm.get_current("beta")), logz=float(sm.get_current("logz")), ess=float(sm.get_current("ess")))
+            if H[0]:
+                stats["steps"] += 1
+                if rec["beta"] > beta_prev:
+                    stats["advanced"] += 1
+                if limits:
+                    if limits[-1] >= 1.0:
+                        saw_one = True
+                    elif saw_one:
+                        stats["limit_one_then_less"] += 1
+                for kv in judge(H, beta_prev, er * N, vol is not None, rec, w, limits[-1] if limits else None):
+                    bad.append((kv[0], kv[1] + f" [step {t + 1} of a {T}-step sequence through one Reweighter; vol={vol}, directed={directed}]"))
+                if bad:
+                    break
+            # the mutation step would now produce the next batch at the recorded beta
+            u = rng.random((N, d))
+            r2 = np.sum((u - 0.5) ** 2, axis=1)
+            l = -scale * r2
+            if spike_at is not None and t >= spike_at:
+                k = int(rng.integers(1, 4))
+                l[:k] += 10 ** rng.uniform(1.0, 2.5)          # newly discovered narrow, much higher mode
+            sm.update_current(dict(u=u, x=u.copy(), logl=l))
+            sm.commit_current_to_history()
+    return bad, stats, dict(N=N, ess_ratio=er, vol=vol, directed=bool(directed), T=T)
+
+
+def _seq_batch(seeds):
+    out = []
+    for sd in seeds:
+        try:
+            out.append((sd,) + sequence_case(sd))
+        except Exception:
+            out.append((sd, [("exception", fmt_exc()[-400:])], {}, {}))
+    return out
+
+
 def _batch(seed, start, count):
     os.environ["VERIF_SEED"] = str(seed)
     ck = Check("C05")
@@ -194,6 +264,23 @@ def run():
             ck.event("_find_beta_upper_limit observed", nlim)
             for key, what in bad:
                 ck.violation(key, what, dict(stream=["pool", idx], case=desc))
+    nseq = ck.pick(600, 20000)
+    seeds = [ck.subseed("seq", i) for i in range(nseq)]
+    stasks = [("tvf.checks.c05:_seq_batch", dict(seeds=seeds[i:i + 50]), None) for i in range(0, nseq, 50)]
+    for i, st, val in farm.run(stasks, timeout=1800, progress="C05-sequences"):
+        if st != "ok":
+            ck.inconc(f"sequence batch {i}: {st} {str(val)[:300]}")
+            continue
+        for sd, bad, stats, desc in val:
+            ck.case(dict(sequence=desc), nontrivial=stats.get("advanced", 0) > 0)
+            ck.event("multi-iteration sequences through one Reweighter instance")
+            ck.event("sequence steps judged", stats.get("steps", 0))
+            ck.event("sequence steps where the ESS limit dropped below 1 after having been 1", stats.get("limit_one_then_less", 0))
+            seen = set()
+            for key, what in bad:
+                if key not in seen:
+                    seen.add(key)
+                    ck.violation(key, what, dict(sequence_seed=sd, case=desc))
     rt = []
     nr = ck.pick(24, 400)
     for i in range(nr):
@@ -220,6 +307,7 @@ def run():
                 seen.add(key)
                 ck.violation(key, what, dict(cfg=cfg))
     ck.require_events("synthetic pools through Reweighter.run", "pools on which beta advanced", "_find_beta_upper_limit observed",
+                      "sequence steps judged", "sequence steps where the ESS limit dropped below 1 after having been 1",
                       "real-run Reweighter.run invocations judged", "real-run iterations on which beta advanced")
     return ck.finish(
         rule="synthetic pools (T<=8 batches, unequal sizes, quadratic/flat/peaked/heavy likelihoods, 1..T warm-up batches, ess_ratio {0.5,1,2,3.5}, "
